@@ -22,6 +22,7 @@
 import GraphiqModel.Proofs.Wire
 import GraphiqModel.Proofs.CommuteTableau
 import GraphiqModel.Proofs.CommuteRecord
+import GraphiqModel.Proofs.CommuteHilbert
 namespace Graphiq.C13
 open Graphiq Graphiq.Wire
 
@@ -364,6 +365,44 @@ theorem compiled_record_independent_of_topological_order (c : Circuit) (hgood : 
   · show (TabSpec.gstate s1.t).G P ↔ (TabSpec.gstate s2.t).G P
     rw [e3.1]
   · rw [Commute.finalRecord_eq, Commute.finalRecord_eq, e3.2]
+
+/-! ## 2f. read as quantum states
+
+  C07's Hilbert-space reading: `Hilbert.rho n (STab.ofTab t)` is the density matrix `∏ᵢ (1 + gᵢ)/2` (over ℂ, indexed by bit
+  strings) of the stabilizer state of the tableau `t`; tableaux with the same signed stabilizer group have the same density
+  matrix.  So the conclusions of §2c are equalities of quantum states. -/
+
+/-- **the quantum state the stabilizer backend compiles to does not depend on the topological order**: under the
+    hypotheses of `compiled_tableau_independent_of_topological_order` the two final tableaux denote the same density matrix -/
+theorem compiled_density_matrix_independent_of_topological_order (c : Circuit) (hgood : c.Good) (har : Commute.ArityOk c)
+    (seq1 seq2 : List Nat) (hl1 : c.isLinearExtension seq1 = true) (hl2 : c.isLinearExtension seq2 = true)
+    (d1 d2 : Det) (script1 script2 : List Bool) (s1 s2 : RunState)
+    (h1 : stabRun c.ne c.np d1 script1 ((c.sops seq1).map Commute.toCOp) = some s1)
+    (h2 : stabRun c.ne c.np d2 script2 ((c.sops seq2).map Commute.toCOp) = some s2)
+    (hout : Commute.feed c.ne c.np (c.sops seq1) s1.outs (fun _ => []) =
+      Commute.feed c.ne c.np (c.sops seq2) s2.outs (fun _ => [])) :
+    Hilbert.rho (c.ne + c.np) (STab.ofTab s1.t) = Hilbert.rho (c.ne + c.np) (STab.ofTab s2.t) :=
+  Commute.rho_eq_of_grp_eq (Commute.stabRun_refines c hgood har seq1 d1 script1 s1 h1).1
+    (Commute.stabRun_refines c hgood har seq2 d2 script2 s2 h2).1
+    (compiled_tableau_independent_of_topological_order c hgood har seq1 seq2 hl1 hl2 d1 d2 script1 script2 s1 s2 h1 h2 hout)
+
+/-- **the rewrites preserve the quantum state the stabilizer backend compiles to**: under the hypotheses of
+    `rewrite_preserves_compiled_tableau` the two final tableaux denote the same density matrix -/
+theorem rewrite_preserves_compiled_density_matrix (c c' : Circuit) (hgood : c.Good) (har : Commute.ArityOk c)
+    (h : Rewrites c c') (seq seq' : List Nat) (hl : c.isLinearExtension seq = true)
+    (hl' : c'.isLinearExtension seq' = true) (d d' : Det) (script script' : List Bool) (s s' : RunState)
+    (h1 : stabRun c.ne c.np d script ((c.sops seq).map Commute.toCOp) = some s)
+    (h2 : stabRun c'.ne c'.np d' script' ((c'.sops seq').map Commute.toCOp) = some s')
+    (hout : Commute.feed c.ne c.np (c.sops seq) s.outs (fun _ => []) =
+      Commute.feed c'.ne c'.np (c'.sops seq') s'.outs (fun _ => [])) :
+    Hilbert.rho (c.ne + c.np) (STab.ofTab s.t) = Hilbert.rho (c.ne + c.np) (STab.ofTab s'.t) := by
+  have hflat := h.flat_eq hgood
+  have hne : c'.ne = c.ne := by simp only [Circuit.flat, Prod.mk.injEq] at hflat; exact hflat.1
+  have hnp : c'.np = c.np := by simp only [Circuit.flat, Prod.mk.injEq] at hflat; exact hflat.2.1
+  have t2 := (Commute.stabRun_refines c' (h.good hgood) (Commute.Rewrites.arityOk hgood har h) seq' d' script' s' h2).1
+  rw [hne, hnp] at t2
+  exact Commute.rho_eq_of_grp_eq (Commute.stabRun_refines c hgood har seq d script s h1).1 t2
+    (rewrite_preserves_compiled_tableau c c' hgood har h seq seq' hl hl' d d' script script' s s' h1 h2 hout)
 
 /-! ## 3. library calls do not mutate their inputs -/
 
